@@ -127,47 +127,77 @@ Inductive cfg_result :=
 | R_crash | R_invalid | R_rejected
 | R_sched (start : Z) (en : option Z) (utc sd ed : Z).
 
-(* What the property and its anchors say about configuration: a start time is required;
-   the end is the end time, else start + duration minutes, else open; an end not after the
-   start is rejected; start_day/end_day are decoded as weekday names; an absent end_day
-   defaults to the start day; no days at all means a daily schedule.  Only judged when the
-   time attributes are well formed and the duration is a sane non-negative number. *)
-Definition c24_ok_cfg (a_start a_end : option (list Z)) (a_utc a_dur : option Z)
-           (a_sd a_ed : option (list Z)) (r : cfg_result) : bool :=
+(* The schedule a <schedule>/<login> element DENOTES, from the property and its anchors: a start
+   time is required (an element without one configures no schedule); the end is the end time,
+   else start + duration minutes, else open; an end not after the start is rejected;
+   start_day/end_day are decoded as weekday names; an absent end_day defaults to the start day;
+   no days at all means a daily schedule.  Only judged when the time attributes are well formed
+   "HH:MM:SS" and the duration is a sane non-negative number. *)
+Inductive denotation :=
+| D_unjudged | D_invalid | D_rejected
+| D_sched (start : Z) (en : option Z) (utc sd ed : Z).
+
+Definition denote (a_start a_end : option (list Z)) (a_utc a_dur : option Z)
+           (a_sd a_ed : option (list Z)) : denotation :=
   let dur := match a_dur with Some d => d | None => 0 end in
   let utc := match a_utc with Some u => u | None => 0 end in
   let want_sd := match a_sd with Some s => spec_dow s | None => -1 end in
   let want_ed := match a_ed with Some s => spec_dow s | None => want_sd end in
-  if negb ((0 <=? dur) && (dur <? 100000000)) then true else
+  if negb ((0 <=? dur) && (dur <? 100000000)) then D_unjudged else
   match a_start with
-  | None => match r with R_invalid => true | _ => false end
+  | None => D_invalid
   | Some ss =>
     match hms ss with
-    | None => true
+    | None => D_unjudged
     | Some st =>
       match a_end with
-      | None =>
-        match r with
-        | R_sched st' en' utc' sd' ed' =>
-          (st' =? st) && (utc' =? utc) && (sd' =? want_sd) && (ed' =? want_ed)
-          && (match en' with
-              | Some e => negb (dur =? 0) && (e =? st + dur * ns_minute)
-              | None => dur =? 0
-              end)
-        | _ => false
-        end
+      | None => D_sched st (if dur =? 0 then None else Some (st + dur * ns_minute)) utc want_sd want_ed
       | Some es =>
         match hms es with
-        | None => true
-        | Some e =>
-          match r with
-          | R_rejected => e <=? st
-          | R_sched st' en' utc' sd' ed' =>
-            (st <? e) && (st' =? st) && (utc' =? utc) && (sd' =? want_sd) && (ed' =? want_ed)
-            && (match en' with Some e' => e' =? e | None => false end)
-          | _ => false
-          end
+        | None => D_unjudged
+        | Some e => if e <=? st then D_rejected else D_sched st (Some e) utc want_sd want_ed
         end
       end
+    end
+  end.
+
+Definition opt_eqb (a b : option Z) : bool :=
+  match a, b with
+  | Some x, Some y => x =? y
+  | None, None => true
+  | _, _ => false
+  end.
+
+(* oracle for a create_schedule result *)
+Definition c24_ok_cfg (a_start a_end : option (list Z)) (a_utc a_dur : option Z)
+           (a_sd a_ed : option (list Z)) (r : cfg_result) : bool :=
+  match denote a_start a_end a_utc a_dur a_sd a_ed with
+  | D_unjudged => true
+  | D_invalid => match r with R_invalid => true | _ => false end
+  | D_rejected => match r with R_rejected => true | _ => false end
+  | D_sched st en utc sd ed =>
+    match r with
+    | R_sched st' en' utc' sd' ed' =>
+      (st' =? st) && opt_eqb en' en && (utc' =? utc) && (sd' =? sd) && (ed' =? ed)
+    | _ => false
+    end
+  end.
+
+(* observable result of configuring a schedule from the attributes and then polling it *)
+Inductive cfgrun_result :=
+| W_crash | W_invalid | W_rejected | W_bits (bits : list bool).
+
+(* oracle for the configured path: the polled activity is that of the denoted schedule *)
+Definition c24_ok_cfgrun (a_start a_end : option (list Z)) (a_utc a_dur : option Z)
+           (a_sd a_ed : option (list Z)) (ts : list Z) (r : cfgrun_result) : bool :=
+  match denote a_start a_end a_utc a_dur a_sd a_ed with
+  | D_unjudged => true
+  | D_invalid => match r with W_invalid => true | _ => false end
+  | D_rejected => match r with W_rejected => true | _ => false end
+  | D_sched st en utc sd ed =>
+    match r with
+    | W_bits bits => c24_ok_run utc sd ed st en ts (Some bits)
+    | W_crash => c24_ok_run utc sd ed st en ts None
+    | _ => false
     end
   end.
